@@ -639,3 +639,65 @@ package types
 //@   loop 1 frame
 //@   loop 1 invariant 0 <= i && i <= 18 - inputSize && inputSize >= 1 && inputSize <= 18 && fresh(bzStr) && len(bzStr) == 20 && off(bzStr) == 0 && cap(bzStr) >= 20
 //@   ensures true
+
+// ---------------------------------------------------------------- coin.go
+// Coins are slices of Coin{Denom, Amount}; canonical form = strictly sorted by denomination, every amount
+// positive. For the two operands of the merge the amount of a denomination is a function of the pre-state
+// (`define`): amtA(d) is the amount a holds of d, 0 if a has no coin of d; well defined because a sorted
+// operand has no duplicate denominations.
+
+//@ func (coin Coin) IsZero() (r bool)
+//@   props C18
+//@   requires coin.Amount.i != nil
+//@   ensures r == (val(coin.Amount) == 0)
+
+//@ func (coin Coin) IsPositive() (r bool)
+//@   props C18
+//@   requires coin.Amount.i != nil
+//@   ensures r == (val(coin.Amount) > 0)
+
+//@ func (coin Coin) IsNegative() (r bool)
+//@   props C18
+//@   requires coin.Amount.i != nil
+//@   ensures r == (val(coin.Amount) < 0)
+
+// removeZeroCoins on a set without zero coins (every valid operand): the same slice, nothing written
+//@ func removeZeroCoins(coins Coins) (r Coins)
+//@   props C18
+//@   requires forall i int :: 0 <= i && i < len(coins) ==> coins[i].Amount.i != nil && val(coins[i].Amount) != 0
+//@   loop 1 frame
+//@   loop 1 invariant 0 <= i && i <= l && l == len(coins) && coins == old(coins)
+//@   ensures r == coins
+
+//@ func (coin Coin) Add(coinB Coin) (r Coin)
+//@   props C18
+//@   requires coin.Amount.i != nil && coinB.Amount.i != nil
+//@   may_panic
+//@   ensures coin.Denom == coinB.Denom && r.Denom == coin.Denom && r.Amount.i != nil && fresh(r.Amount.i) && val(r.Amount) == val(coin.Amount) + val(coinB.Amount)
+
+// C18: the merge of two sorted coin sets without zero coins is sorted, holds for every denomination the sum of
+// the two amounts, drops denominations whose sum is zero, and leaves both operands untouched (no modifies clause:
+// every cell that existed before the call keeps its content).
+//@ func (coins Coins) safeAdd(coinsB Coins) (r Coins)
+//@   props C18
+//@   may_panic
+//@   define amtA(d) := coins[i].Denom => val(coins[i].Amount) for i in 0..len(coins) else 0
+//@   define amtB(d) := coinsB[i].Denom => val(coinsB[i].Amount) for i in 0..len(coinsB) else 0
+//@   requires forall i int, j int :: {coins[i], coins[j]} 0 <= i && i < j && j < len(coins) ==> str_lt(coins[i].Denom, coins[j].Denom)
+//@   requires forall i int, j int :: {coinsB[i], coinsB[j]} 0 <= i && i < j && j < len(coinsB) ==> str_lt(coinsB[i].Denom, coinsB[j].Denom)
+//@   requires forall i int :: {coins[i]} 0 <= i && i < len(coins) ==> coins[i].Amount.i != nil && val(coins[i].Amount) != 0
+//@   requires forall i int :: {coinsB[i]} 0 <= i && i < len(coinsB) ==> coinsB[i].Amount.i != nil && val(coinsB[i].Amount) != 0
+//@   loop 1 frame
+//@   loop 1 decreases (lenA - indexA) + (lenB - indexB)
+//@   loop 1 invariant 0 <= indexA && indexA <= lenA && 0 <= indexB && indexB <= lenB && lenA == len(coins) && lenB == len(coinsB) && ((ref(sum) == 0 && cap(sum) == 0 && len(sum) == 0) || fresh(sum))
+//@   loop 1 invariant forall k int, l int :: {sum[k], sum[l]} 0 <= k && k < l && l < len(sum) ==> str_lt(sum[k].Denom, sum[l].Denom)
+//@   loop 1 invariant forall k int :: {sum[k]} 0 <= k && k < len(sum) ==> (indexA < lenA ==> str_lt(sum[k].Denom, coins[indexA].Denom)) && (indexB < lenB ==> str_lt(sum[k].Denom, coinsB[indexB].Denom))
+//@   loop 1 invariant forall k int :: {sum[k]} 0 <= k && k < len(sum) ==> sum[k].Amount.i != nil && val(sum[k].Amount) == amtA(sum[k].Denom) + amtB(sum[k].Denom) && val(sum[k].Amount) != 0
+//@   loop 1 invariant forall j int :: {coinsB[j]} 0 <= j && j < indexB && indexA < lenA ==> str_lt(coinsB[j].Denom, coins[indexA].Denom)
+//@   loop 1 invariant forall i int :: {coins[i]} 0 <= i && i < indexA && indexB < lenB ==> str_lt(coins[i].Denom, coinsB[indexB].Denom)
+//@   loop 1 invariant forall i int :: {coins[i]} 0 <= i && i < indexA ==> (exists k int :: {k == len(sum) - 1} 0 <= k && k < len(sum) && sum[k].Denom == coins[i].Denom) || amtA(coins[i].Denom) + amtB(coins[i].Denom) == 0
+//@   loop 1 invariant forall j int :: {coinsB[j]} 0 <= j && j < indexB ==> (exists k int :: {k == len(sum) - 1} 0 <= k && k < len(sum) && sum[k].Denom == coinsB[j].Denom) || amtA(coinsB[j].Denom) + amtB(coinsB[j].Denom) == 0
+//@   ensures [sorted] forall k int, l int :: {r[k], r[l]} 0 <= k && k < l && l < len(r) ==> str_lt(r[k].Denom, r[l].Denom)
+//@   ensures [amounts] forall k int :: {r[k]} 0 <= k && k < len(r) ==> r[k].Amount.i != nil && val(r[k].Amount) == amtA(r[k].Denom) + amtB(r[k].Denom) && val(r[k].Amount) != 0
+//@   ensures [completeA] forall i int :: {coins[i]} 0 <= i && i < len(coins) ==> (exists k int :: {k == len(r) - (len(coins) - i)} 0 <= k && k < len(r) && r[k].Denom == coins[i].Denom) || amtA(coins[i].Denom) + amtB(coins[i].Denom) == 0
+//@   ensures [completeB] forall j int :: {coinsB[j]} 0 <= j && j < len(coinsB) ==> (exists k int :: {k == len(r) - (len(coinsB) - j)} 0 <= k && k < len(r) && r[k].Denom == coinsB[j].Denom) || amtA(coinsB[j].Denom) + amtB(coinsB[j].Denom) == 0
